@@ -193,6 +193,14 @@ def cycle_problems(builder, obj, state):
     w2 = call(back.dumps)
     if w2 != w:
         problems.append("second write is not byte-identical")
+    # a reader object that has loaded ANOTHER (labelled, final) manifest before must read the same
+    labelled = json.loads(w[1])
+    labelled["payload"]["compose"].update({"label": "RC-1.0", "final": True})
+    used = b["new"]()
+    call(used.loads, json.dumps(labelled))
+    r3 = call(used.loads, w[1])
+    if r3[0] != "ok" or call(used.dumps) != w:
+        problems.append("a reader that loaded a labelled manifest before does not reproduce the file (%s)" % (r3[1] if r3[0] != "ok" else "dump differs"))
     hdr = json.loads(w[1])["header"]
     if hdr.get("type") != "productmd.%s" % b["attr"] or hdr.get("version") != "1.2":
         problems.append("header is %s" % hdr)
